@@ -479,6 +479,15 @@ func (vc *VC) loopHeader(li *LoopInfo, reach Term, entrySt *State, entryPhi map[
 		}
 		vc.vals[phi] = v
 		li.havocPhi[phi] = v
+		if phi.Comment == "rangeindex" && vc.fi != nil && vc.fi.fc.QInst {
+			// the bounded quantifiers translated before this loop (preconditions, outer invariants) get their
+			// instances at this loop's hidden index and at the element it looks at next (tautologies)
+			for _, h := range vc.rangeQs {
+				for _, t := range []Term{v.t, app("+", v.t, "1")} {
+					vc.addAssume("true", implies(h.q, implies(strings.ReplaceAll(h.bound, h.c, t), strings.ReplaceAll(h.body, h.c, t))))
+				}
+			}
+		}
 		// range-over-slice/array/int pattern emitted by go/ssa:  k = phi[-1, k1]; k1 = k + 1; if k1 < n
 		// every back-edge value k1 passed the guard k1 < n (n loop-invariant), hence k < n at the header.
 		if n, ok := vc.rangeIndexBound(li, phi); ok {
@@ -742,6 +751,11 @@ func (vc *VC) instr(in ssa.Instruction, st *State, reach Term, b *ssa.BasicBlock
 		lv := vc.rootLV(x.Type(), r, true)
 		vc.store(st, lv, vc.S.zero(t))
 		vc.vals[x] = Val{t: r, lv: lv, typ: x.Type()}
+		if isStringsBuilder(t) {
+			// a new strings.Builder is empty
+			vc.bytesOn()
+			vc.heapSet(st, builderAccHeap, builderAccSort, app("store", vc.heapGet(st, builderAccHeap, builderAccSort), r, bytesEmpty))
+		}
 	case *ssa.MakeSlice:
 		vc.makeSlice(x, st, reach)
 	case *ssa.MakeMap:
